@@ -27,7 +27,7 @@ REQUIRED_COUNTERS = ["frames_injected", "must_not_deliver_checked", "equivalent_
 LAT, LON = 415000000, 21000000
 
 
-def emit_genuine(clock, G, res):
+def emit_genuine(clock, G, res, pay=None):
     """Honest sender emits one frame of every profile; returns list of (label, bytes)."""
     from vf.gnharness import World, gn_request, area, mid_of
     from vf.ether import Ether
@@ -49,12 +49,12 @@ def emit_genuine(clock, G, res):
         S.router.gn_data_request(r)
         return [p for (_, _, s, p) in ether.wire[n0:] if s == "S"]
     for k in range(3):
-        f = req(SecurityProfile.COOPERATIVE_AWARENESS_MESSAGE, 36, b"\x07\xd1\x00\x00CAM-%d" % k)
+        f = req(SecurityProfile.COOPERATIVE_AWARENESS_MESSAGE, 36, b"\x07\xd1\x00\x00" + (pay["cam"] if pay else b"CAM-%d" % k))
         out.append((f"cam{k}", f[0]))
         clock.advance(0.4 if k == 0 else 0.8)
-    out.append(("vam", req(SecurityProfile.VRU_AWARENESS_MESSAGE, 638, b"\x07\xe2\x00\x00VAM")[0]))
+    out.append(("vam", req(SecurityProfile.VRU_AWARENESS_MESSAGE, 638, b"\x07\xe2\x00\x00" + (pay["vam"] if pay else b"VAM"))[0]))
     clock.advance(0.2)
-    out.append(("denm", req(SecurityProfile.DECENTRALIZED_ENVIRONMENTAL_NOTIFICATION_MESSAGE, 37, b"\x07\xd2\x00\x00DENM", kind="gbc")[0]))
+    out.append(("denm", req(SecurityProfile.DECENTRALIZED_ENVIRONMENTAL_NOTIFICATION_MESSAGE, 37, b"\x07\xd2\x00\x00" + (pay["denm"] if pay else b"DENM"), kind="gbc")[0]))
     clock.advance(0.2)
     out.append(("generic", req(SecurityProfile.NO_SECURITY, 99, b"\x0b\xb8\x00\x00GENERIC")[0]))
     return out
